@@ -394,6 +394,44 @@ func run[E any, P fields.Ptr[E]](c *mon.Ctx, f *fields.Field[E, P]) {
 		}
 	}
 
+	// batches whose running product passes through 1, -1 or the first entry again (sets closed under inversion, an
+	// entry next to its inverse, zeros in between): the intermediate values of the one-inversion trick are special
+	{
+		x, y := L.V[5%len(L.V)], L.V[11%len(L.V)]
+		if x.Sign() == 0 {
+			x = big.NewInt(2)
+		}
+		if y.Sign() == 0 {
+			y = big.NewInt(3)
+		}
+		inv := func(a *big.Int) *big.Int { return oinv(a, q) }
+		mul := func(a, b *big.Int) *big.Int { return new(big.Int).Mod(new(big.Int).Mul(a, b), q) }
+		neg := func(a *big.Int) *big.Int { return new(big.Int).Mod(new(big.Int).Neg(a), q) }
+		m1 := new(big.Int).Sub(q, big.NewInt(1))
+		one, two, zero := big.NewInt(1), big.NewInt(2), new(big.Int)
+		for bi, vs := range [][]*big.Int{
+			{x, inv(x)}, {m1, m1}, {two, zero, inv(two)}, {x, y, inv(mul(x, y))}, {x, inv(x), y, inv(y), two}, {one, one, one}, {m1},
+			{x, neg(inv(x))}, {zero, x, inv(x), zero}, {x, inv(x), x, inv(x), x, inv(x)}, {inv(two), two, m1, m1, one}, {x, y, inv(y), inv(x)},
+		} {
+			n := len(vs)
+			in := make([]E, n)
+			for i := range vs {
+				in[i] = e.el(vs[i])
+			}
+			var out []E
+			if c.Guard(N+"/BatchInvert/panic", func() string { return fmt.Sprintf("structured batch %d", bi) }, func() { out = f.BatchInvert(in) }) {
+				continue
+			}
+			c.Check("BatchInvert", N+"/BatchInvert/length", len(out) == n, func() string { return fmt.Sprintf("n=%d got len %d", n, len(out)) })
+			for i := 0; i < n && i < len(out); i++ {
+				e.chk("BatchInvert", "batch", &out[i], oinv(vs[i], q), func() string {
+					return fmt.Sprintf("BatchInvert of a batch whose running product passes through special values (batch %d, n=%d) entry %d = %s", bi, n, i, hx(vs[i]))
+				})
+			}
+			c.Class(fmt.Sprintf("%s/BatchInvert/structured%d", N, bi))
+		}
+	}
+
 	// ---------- vectors ----------
 	lens := []int{}
 	for n := 0; n <= 35; n++ {
